@@ -178,12 +178,16 @@ def run(ctx, eng):
     writers = {q: n for q, n in writers.items()
                if not q.startswith('settings.')}
     ctx.ob('OWN.table-size', 'encoder.header_table_size', 'writers',
-           set(writers) == {H + '_acknowledge_settings'},
+           # (the acknowledge helper, or the SETTINGS handler that is its
+           # only caller)
+           bool(writers) and set(writers) <= {
+               H + '_acknowledge_settings', H + '_receive_settings_frame'},
            'written only in _acknowledge_settings (found %s)'
            % sorted(w.split('.')[-1] for w in writers))
     fa = m.func(H + '_acknowledge_settings')
     ok = cm.Every()
-    for p in cm.normal_paths(eng.I.run(fa)):
+    from .c11 import handler_paths
+    for p in handler_paths(eng, 'remote'):
         for e in p.events:
             if e.kind == 'write' and e.attr == 'header_table_size':
                 v = e.value
